@@ -385,7 +385,7 @@ static void apply_op (HState * S, Trans t)
 	}
 	case OP_SET_PARAM: {
 		static const int which[4] = { QS_PARAM_PRIMAL_PRICING, QS_PARAM_DUAL_PRICING, QS_PARAM_SIMPLEX_SCALING, QS_PARAM_SIMPLEX_MAX_ITERATIONS };
-		static const int value[4] = { QS_PRICE_PDEVEX, QS_PRICE_DDANTZIG, 0, 500000 };
+		static const int value[4] = { QS_PRICE_PDEVEX, QS_PRICE_DDANTZIG, 0, 600000 };
 		CALL (mpq_QSset_param (p, which[v], value[v]));
 		break;
 	}
@@ -949,3 +949,134 @@ static void inv_run (long item)
 	sb_free (&S.desc); sb_free (&before); sb_free (&after);
 }
 Family fam_inv = { "inv", "invalid-call alphabet from every lifecycle state (C07; C18/C20 riders); --opt depth=N prefix length --opt reduced=0|1", inv_init, inv_count, inv_run, NULL, 60 };
+
+/* =====================================================================
+ * E-HIST with two live objects (C16a): prefix ; mpq_QScopy_prob ; interleaved
+ * steps on original and copy.  After the copy both must be observably equal;
+ * afterwards a step on one must not change anything observable of the other.
+ * ===================================================================== */
+static int cp_steps;
+static void copy_init (void)
+{
+	build_alphabets ();
+	cp_steps = (int) opt_int ("steps", 2);
+	alpha = alpha_red; nalpha = n_red;
+}
+/* step digits: 0..nalpha-1 = op on original, nalpha..2nalpha-1 = op on copy, 2nalpha = free original, 2nalpha+1 = free copy */
+static long copy_count (void) { long c = (long) NSTART * (n_full + 1); for (int i = 0; i < cp_steps; i++) c *= (2 * nalpha + 2); return c; }
+static void params_dump (mpq_QSprob p, SBuf * b)
+{
+	static const int params[5] = { QS_PARAM_PRIMAL_PRICING, QS_PARAM_DUAL_PRICING, QS_PARAM_SIMPLEX_DISPLAY, QS_PARAM_SIMPLEX_MAX_ITERATIONS, QS_PARAM_SIMPLEX_SCALING };
+	for (int k = 0; k < 5; k++) { int val = -1, rv = mpq_QSget_param (p, params[k], &val); sb_printf (b, "param%d %d %d|", params[k], rv, val); }
+	static const int qparams[2] = { QS_PARAM_OBJULIM, QS_PARAM_OBJLLIM };
+	mpq_t v; mpq_init (v);
+	for (int k = 0; k < 2; k++) { int rv = mpq_QSget_param_EGlpNum (p, qparams[k], &v); sb_printf (b, "qparam%d %d ", qparams[k], rv); if (!rv) sb_mpq (b, v); sb_printf (b, "|"); }
+	mpq_clear (v);
+}
+static void copy_run (long item)
+{
+	long r = item;
+	int start = (int) (r % NSTART); r /= NSTART;
+	int pre = (int) (r % (n_full + 1)); r /= (n_full + 1);
+	int steps[8];
+	for (int i = 0; i < cp_steps; i++) { steps[i] = (int) (r % (2 * nalpha + 2)); r /= (2 * nalpha + 2); }
+	size_t mem0 = 0; char capbuf[400]; capbuf[0] = 0;
+	HState S[2]; memset (S, 0, sizeof S);
+	sb_init (&S[0].desc); sb_reserve (&S[0].desc, 4096); sb_init (&S[1].desc); sb_reserve (&S[1].desc, 4096);
+	SBuf before, after, hist; sb_init (&before); sb_init (&after); sb_init (&hist);
+	sb_reserve (&before, 8192); sb_reserve (&after, 8192); sb_reserve (&hist, 4096);
+	qsx_log_reset ();
+	cap_begin ();
+	if (mem_tracking ()) mem0 = mem_now ();
+	qsx_start ();
+	char why[700];
+	S[0].M = make_start (start); S[0].edited_since_solve = 1;
+	S[0].p = qsx_build (S[0].M, start == 3 ? ROUTE_ROWS : ROUTE_LOAD, 0);
+	sb_printf (&hist, "start=%s", start_name[start]);
+	int stop = !S[0].p;
+	if (!stop && pre < n_full) {
+		apply_op (&S[0], alpha_full[pre]);
+		sb_printf (&hist, "%s", S[0].desc.s);
+		if (S[0].inapplicable || S[0].failed_valid || qsx_conform (S[0].p, S[0].M, 1, why, sizeof why)) { STAT ("prefix_inapplicable"); stop = 1; }
+	}
+	if (!stop) {
+		S[1].p = mpq_QScopy_prob (S[0].p, "thecopy");
+		STAT ("api_transitions");
+		sb_printf (&hist, " ; COPY");
+		if (!S[1].p) { viol ("C16", "copy-failed", "mpq_QScopy_prob returned NULL [history: %s]", hist.s); stop = 1; }
+		else {
+			S[1].M = ref_clone (S[0].M); S[1].edited_since_solve = 1;
+			STAT ("copies");
+			if (qsx_conform (S[1].p, S[1].M, 1, why, sizeof why)) { viol ("C16", "copy-differs", "the copy is not observably equal to the original: %s [history: %s]", why, hist.s); stop = 1; }
+			else {
+				before.len = after.len = 0; before.s[0] = after.s[0] = 0;
+				params_dump (S[0].p, &before); params_dump (S[1].p, &after);
+				if (strcmp (before.s, after.s)) { viol ("C16", "copy-params-differ", "parameters of the copy differ: original \"%s\" copy \"%s\" [history: %s]", before.s, after.s, hist.s); }
+				if (qsx_conform (S[0].p, S[0].M, 1, why, sizeof why)) { viol ("C16", "copy-disturbs-original", "copying changed the original: %s [history: %s]", why, hist.s); stop = 1; }
+			}
+		}
+	}
+	for (int i = 0; i < cp_steps && !stop; i++) {
+		int d = steps[i];
+		int who = d >= 2 * nalpha ? d - 2 * nalpha : d / nalpha, other = 1 - who;
+		if (!S[who].p) { STAT ("histories_inapplicable"); stop = 1; break; }   /* already freed */
+		before.len = 0; before.s[0] = 0;
+		if (S[other].p) observe_state (&S[other], &before);
+		if (d >= 2 * nalpha) {
+			mpq_QSfree_prob (S[who].p); S[who].p = NULL;
+			sb_printf (&hist, " ; %s:free", who ? "copy" : "orig");
+		} else {
+			S[who].desc.len = 0; S[who].desc.s[0] = 0;
+			apply_op (&S[who], alpha[d % nalpha]);
+			sb_printf (&hist, " ; %s:%s", who ? "copy" : "orig", S[who].desc.s + 3);
+			if (S[who].inapplicable) { STAT ("histories_inapplicable"); stop = 1; break; }
+			if (S[who].failed_valid) { STAT ("prefix_violation_skipped"); stop = 1; break; }
+			if (qsx_conform (S[who].p, S[who].M, 1, why, sizeof why)) { STAT ("prefix_violation_skipped"); stop = 1; break; }
+		}
+		STAT ("api_transitions");
+		if (S[other].p) {
+			after.len = 0; after.s[0] = 0;
+			observe_state (&S[other], &after);
+			if (strcmp (before.s, after.s)) {
+				size_t dd = 0; while (before.s[dd] && before.s[dd] == after.s[dd]) dd++;
+				size_t s0 = dd > 60 ? dd - 60 : 0;
+				viol ("C16", who ? "copy-step-changes-original" : "original-step-changes-copy", "a call on the %s changed what is observed of the %s: before \"...%.140s\" after \"...%.140s\" [history: %s]", who ? "copy" : "original", other ? "copy" : "original", before.s + s0, after.s + s0, hist.s);
+				stop = 1;
+			}
+		}
+	}
+	if (!stop) {
+		STAT ("histories");
+		/* both (or the survivor) must still solve to their own model's answer */
+		for (int w = 0; w < 2; w++) {
+			if (!S[w].p || S[w].M->n == 0) continue;
+			Truth *T = ref_solve (S[w].M);
+			Cfg c; cfg_default (&c);
+			SolveObs *o = obs_new (S[w].M->n, S[w].M->m);
+			qsx_solve (S[w].p, &c, NULL, o);
+			STAT ("api_transitions");
+			if (ref_wellformed (S[w].M) && T->status != TRUTH_UNKNOWN) {
+				int want = T->status == TRUTH_OPTIMAL ? QS_LP_OPTIMAL : T->status == TRUTH_INFEASIBLE ? QS_LP_INFEASIBLE : QS_LP_UNBOUNDED;
+				if (o->rval || o->status != want || (want == QS_LP_OPTIMAL && !mpq_equal (o->objval, T->val)))
+					viol ("C16", w ? "copy-solves-wrong" : "original-solves-wrong", "final solve of the %s returns rval=%d status=%s but its own model is %s [history: %s]", w ? "copy" : "original", o->rval, status_name (o->status), truth_name (T->status), hist.s);
+			}
+			obs_transcript (o);
+			obs_free (o); truth_free (T);
+		}
+		tr_str (hist.s);
+		if (sample_wanted ()) sample ("%s", hist.s);
+		if (g_verbose) vlog ("history: %s\n", hist.s);
+	}
+	for (int w = 0; w < 2; w++) { if (S[w].last) obs_free (S[w].last); if (S[w].p) mpq_QSfree_prob (S[w].p); if (S[w].M) ref_free (S[w].M); }
+	unlink ("h.bas"); unlink ("h.lp"); unlink ("h.mps");
+	qsx_stop ();
+	long capn = cap_end (capbuf, sizeof capbuf);
+	if (capn && !stop) viol ("C20", "copy-writes-stdio", "%ld bytes reached stdout/stderr (\"%.120s\") [history: %s]", capn, capbuf, hist.s);
+	if (mem_tracking () && !stop) {
+		size_t mem1 = mem_now ();
+		STAT ("mem_balance_checked");
+		if (mem1 != mem0) viol ("C18", "copy-leak", "%ld bytes remain allocated after both problems were freed and QSexactClear() [history: %s]", (long) mem1 - (long) mem0, hist.s);
+	}
+	sb_free (&S[0].desc); sb_free (&S[1].desc); sb_free (&before); sb_free (&after); sb_free (&hist);
+}
+Family fam_copy = { "copy", "prefix ; mpq_QScopy_prob ; interleaved steps on original and copy (C16); --opt steps=N", copy_init, copy_count, copy_run, NULL, 60 };
